@@ -252,6 +252,7 @@ PROPS["C10"] = {
         {"name": "C10_reencode", "status": "proved", "statement": "from_string then to_string of an encoder-produced string returns the same string"},
         {"name": "C10_needs_rehash", "status": "proved", "statement": "needs_rehash = not (opslimit as u32 = t and (memlimit/1024) as u32 = m)"},
         {"name": "C10_str_is_self_describing", "status": "proved", "statement": "forall password, 16 salt bytes, in-range costs: crypto_pwhash_str returns the string that encodes exactly Argon2id, t, m, the salt and the 32-byte Argon2id output computed (and parse recovers them)"},
+        {"name": "C10_str_hash_is_rfc9106", "status": "proved", "statement": "forall passwords and in-range costs (memory below about 2.2 TiB): crypto_pwhash_str = the $argon2id$v=19$m=..,t=..,p=1$salt$hash string whose hash field is RFC 9106's Argon2id tag (Argon2Spec.argon2) for exactly those parameters and that salt"},
         {"name": "C10_str_verify_own", "status": "proved", "statement": "the string made by crypto_pwhash_str verifies with the password it was made from"},
         {"name": "C10_str_verify_iff", "status": "proved", "statement": "crypto_pwhash_str_verify = Ok iff the 32-byte Argon2 output for the parsed algorithm / costs / salt equals the stored hash"},
         {"name": "C10_field_like_salt", "status": "proved", "statement": "non-vacuity + the finding: a salt whose base64 text begins 'argon2id' parses correctly (by vm_compute)"},
